@@ -16,6 +16,7 @@
   (the concrete model refines the byte-frame AbsFile) the three layers agree.  Property theorems only.
 -/
 import SfProofs.AbsRefineRun
+import SfProofs.AbsSized
 import SfProps.C05Bridge
 import SfProps.C08Refine
 import SfProps.C06
@@ -60,6 +61,19 @@ theorem frames_is_length (g : Geom) (ty : Ty) (st : St) (hs : (st.ref ty).size =
     (view g st ty).frames.length = st.frames * g.cpf ty := by
   simp [view, hs]
 
+/-- THE SIZE INVARIANT under writes: `ref.size = frames · cpf` for every caller type whose stream the predicate still claims
+    to know is kept by every accepted line — writes inside and past the end (`writeAt`), truncations, re-opens, raw calls,
+    reads, seeks — hence along every accepted transcript, in every mode -/
+theorem ref_size_invariant (g : Geom) (st st' : St) (tr : List (Abs.Op × Abs.Out)) (hs : RefSized g st)
+    (h : accepts g st tr = some st') : RefSized g st' :=
+  accepts_RefSized g tr st st' hs h
+
+/-- … from the state the check starts in, when the reference streams handed over are whole (`frames0 · cpf` cells) -/
+theorem ref_size_from_init (g : Geom) (ref : Ty → Array Item) (valid : Ty → Bool) (st' : St) (tr : List (Abs.Op × Abs.Out))
+    (hs : ∀ t, valid t = true → (ref t).size = g.frames0 * g.cpf t) (h : accepts g (St.init g ref valid) tr = some st') :
+    RefSized g st' :=
+  accepts_RefSized g tr _ st' (fun t ht => hs t ht) h
+
 /-! ## the bridge for read/write handles of the concrete model -/
 
 /-- a new file, a whole-frame RAW file, a tight or padded AU / WAV file opened SFM_RDWR (C08Refine.RwInv_initial_*), and
@@ -91,6 +105,11 @@ example : (∀ l ∈ exTr, Alpha .s16 l.1) := by
 example : (absRunLines exG .s16 { frames := [7, 8], rpos := 0, wpos := 2 } exTr).frames = [7] ∧
     (absRunLines exG .s16 { frames := [7, 8], rpos := 0, wpos := 2 } exTr).rpos = 1 ∧
     (absRunLines exG .s16 { frames := [7, 8], rpos := 0, wpos := 2 } exTr).wpos = 1 := by decide
+example : RefSized exG (St.init exG exRef (fun t => decide (t = .s16))) := by
+  intro t ht
+  cases t
+  · decide
+  all_goals exact absurd ht (by decide)
 /-- a transcript whose read disagrees with the abstract file is refused -/
 example : holdsOn exG exRef (fun _ => true)
     [(.seek 1 0x20, { ret := 1 }), (.write .s16 true 1 #[5], { ret := 1 }), (.seek 0 0x10, { ret := 0 }),
